@@ -98,7 +98,15 @@ fn delay(kind: u64, amount: u64) {
 fn run_history(out: &mut dyn Write, line: &str) {
     let c = Cfg::parse(line);
     let id = c.str("id", "0");
-    let hist: Vec<usize> = c.list("hist").into_iter().map(|x| x as usize).collect();
+    let mut hist: Vec<usize> = c.list("hist").into_iter().map(|x| x as usize).collect();
+    // `rep=k`: the first width of the history is broadcast k times in a row (a long streak at one width) before the rest follows
+    let rep = c.u64("rep", 1) as usize;
+    if rep > 1 && !hist.is_empty() {
+        let w = hist[0];
+        hist.splice(0..1, std::iter::repeat(w).take(rep));
+    }
+    // `dmlast=m`: the delay mode of the broadcasts after the streak (the whole history without `rep`'s streak keeps `dmode`)
+    let dmlast = c.u64("dmlast", 99);
     let par_extend = c.u64("pe", 0) != 0;
     let seed = c.u64("seed", 1);
     let dmode = c.u64("dmode", 0); // 0 none, 1 fast workers/slow caller, 2 slow workers, 3 random
@@ -167,6 +175,7 @@ fn run_history(out: &mut dyn Write, line: &str) {
         for b in range {
             let n = hist[b];
             let off = offsets[b];
+            let dmode = if dmlast != 99 && b >= rep { dmlast } else { dmode };
             if gap_ms > 0 && gap_at == b as i64 {
                 std::thread::sleep(std::time::Duration::from_millis(gap_ms));
             }
